@@ -30,11 +30,18 @@ G = 64
 CAN = 0xC3
 
 
+_NSTREAM = [0]
+
+
 def make_stream(comp, payload, itemsize, cbs):
     dt = {1: np.uint8, 2: np.uint16, 4: np.uint32, 8: np.uint64, 16: np.complex128}[itemsize]
     data = memoryview(np.frombuffer(payload, dtype=dt))
     assert data.itemsize == itemsize
-    return list(comp.compress(data, compression_block_size=cbs))
+    # the writer's documented options (shuffle filter, explicit type size) change the frames' contents, never their framing
+    k = _NSTREAM[0]
+    _NSTREAM[0] += 1
+    kw = [{}, dict(shuffle='bitshuffle'), dict(shuffle=None), dict(typesize=1), dict(typesize=4, shuffle='shuffle'), dict(clevel=5)][k % 6]
+    return list(comp.compress(data, compression_block_size=cbs, **kw))
 
 
 def layout_classes(frames, cuts):
